@@ -1,16 +1,32 @@
 #!/bin/bash
-# usage: run_seeds.sh [seed-id ...] : applies each stored seeded change to /repo, runs the quick check of its property (and any extra property given as seed:Cxx), reverts.
+# usage: run_seeds.sh [seed-id | seed-id:Cxx,Cyy ...] : applies each stored seeded change to a scratch git worktree of /repo (never to /repo itself),
+# runs the quick check of its property (or the listed ones) against that tree (PYVC_REPO), records the outcome in seeded/<id>/meta.json, removes the worktree.
+# Evidence of these runs goes to a scratch directory: the files under evidence/ always come from runs on the unchanged tree.
 cd /verif
-[ -z "$(git -C /repo status --porcelain)" ] || { echo "/repo is not clean"; exit 9; }
 ids="$@"; [ -n "$ids" ] || ids=$(ls seeded)
-SAVE=$(mktemp -d); cp -r evidence "$SAVE/"; trap 'rm -rf evidence; cp -r "$SAVE/evidence" evidence; rm -rf "$SAVE"' EXIT   # evidence files must come from runs on the unchanged tree
+EV=$(mktemp -d)
 for s in $ids; do
   id=${s%%:*}; props=${s#*:}; [ "$props" = "$s" ] && props=$(python3 -c "import json;print(json.load(open('seeded/$id/meta.json'))['property'])")
-  git -C /repo apply /verif/seeded/$id/patch.diff || { echo "$id: patch does not apply"; continue; }
-  for p in ${props//,/ }; do
-    t0=$(date +%s); out=$(./check $p --tier quick 2>&1); code=$?; t1=$(date +%s)
-    viol=$(echo "$out" | grep -c '^VIOLATION'); first=$(echo "$out" | grep -m1 -A1 '^VIOLATION' | tr '\n' ' ' | cut -c1-260)
-    echo "SEED $id check=$p exit=$code violations=$viol time=$((t1-t0))s :: $first"
-  done
-  git -C /repo checkout -- .
+  WT=$(mktemp -d -u /tmp/seedrun_XXXXXX)
+  git -C /repo worktree add -q "$WT" HEAD || { echo "$id: cannot create worktree"; continue; }
+  if git -C "$WT" apply /verif/seeded/$id/patch.diff; then
+    for p in ${props//,/ }; do
+      t0=$(date +%s); out=$(PYVC_REPO="$WT" PYTHONPATH="$WT" PYVC_EVIDENCE_DIR="$EV" ./check $p --tier quick 2>&1); code=$?; t1=$(date +%s)
+      viol=$(echo "$out" | grep -c '^VIOLATION'); first=$(echo "$out" | grep -m1 -A1 '^VIOLATION' | tr '\n' ' ' | cut -c1-260)
+      echo "SEED $id check=$p exit=$code violations=$viol time=$((t1-t0))s :: $first"
+      python3 - "$id" "$p" "$code" "$viol" "$((t1-t0))" "$first" <<'PY'
+import json, sys, re
+id_, prop, code, viol, secs, first = sys.argv[1:7]
+f = f'/verif/seeded/{id_}/meta.json'; m = json.load(open(f))
+ob = re.search(r'obligation (\S+) refuted', first)
+d = m.get('detected_by') or {}
+if not isinstance(d, dict): d = {}
+d[prop] = {'exit': int(code), 'violation_lines': int(viol), 'first_obligation': ob.group(1) if ob else None, 'no_failing_input_found': 'no-failing-input-found' in first, 'seconds': int(secs)}
+m['detected_by'] = d
+json.dump(m, open(f, 'w'), indent=1)
+PY
+    done
+  else echo "$id: patch does not apply"; fi
+  git -C /repo worktree remove --force "$WT"
 done
+rm -rf "$EV"
